@@ -23,7 +23,7 @@ def run(rep, tier, seed, pa):
     cases += ac.grid_cases(rng, 120 if tier == "quick" else 3000)
     results = ac.align_many(pa, [(case, "cbc" if k % 2 == 0 else "glpk-noimport", False) for k, case in enumerate(cases)])
     items = list(zip(cases, results))
-    facts = ac.judge_many(rep, items, part=True, want_optimal=True, limit=20 if tier == "quick" else 120)
+    facts = ac.judge_many(rep, items, part=True, want_optimal=True, limit=20 if tier == "quick" else 40)
     for (case, res), f in zip(items, facts):
         I = res.get("I")
         rep.count("backend=" + res["mode"])
